@@ -63,6 +63,7 @@ impl<'a> Writer<'a> {
     { unimplemented!() }
 }
 
+pub uninterp spec fn pb_decodes<M: PbMessage>(bytes: Seq<u8>) -> bool;
 pub struct BytesReader { pub vx: u8 }
 impl BytesReader {
     #[verifier::external_body]
@@ -72,6 +73,8 @@ impl BytesReader {
     #[verifier::external_body]
     pub fn read_message<M: PbMessage>(&mut self, bytes: &[u8]) -> (r: Result<M, crate::pb_shim::PbError>)
         ensures r is Ok ==> pb_frame(r.unwrap()).len() <= bytes@.len() && bytes@.take(pb_frame(r.unwrap()).len() as int) == pb_frame(r.unwrap()),
+            // whether the bytes decode as an M is a function of the bytes (uninterpreted)
+            r is Ok <==> pb_decodes::<M>(bytes@),
     { unimplemented!() }
 }
 
